@@ -1,4 +1,7 @@
 import BGV.Proofs.Convert
+import BGV.Proofs.Ctor
+import BGV.Proofs.Convert2
+import BGV.Props.C02
 /-!
 # Property C09 — conversions, reversal, copies (part: `getReversedGraph`; copies)
 
@@ -6,8 +9,13 @@ import BGV.Proofs.Convert
 `edges()` as the iterator runs it).  In the model a copy *is* the value, so independence of copies
 is definitional; the C++ side of copy construction / assignment is covered by the correspondence.
 
-Not yet proved in Lean (correspondence only): `getDirectedGraph`, construction of an undirected
-graph from a directed one, the edge-list constructors.
+The edge-list constructors (`resize(max+1)` on demand, then unforced `addEdge`) are shown to
+produce *literally* the state obtained from a graph created with `1 + largest index` vertices
+by adding the edges one at a time (`C09_dOfEdgeList`, `C09_uOfEdgeList`).
+
+`getDirectedGraph()` and the converting constructor `Undirected(directed)` are characterised on
+the abstract graphs (`C09_getDirectedGraph`, `C09_uOfDirected`), and undirected → directed →
+undirected is the identity of the denoted graph (`C09_und_dir_und`).
 -/
 set_option linter.unusedSectionVars false
 namespace BGV
@@ -80,5 +88,207 @@ theorem C09_reversed_twice [DecidableEq L] (g : G L) (hg : Reach g) :
 
 example : (dReversed (dRun (G.new true 3 : G Nat) [.addEdge 0 1 7, .addEdge 2 1 5, .addEdge 1 1 9])).map
     (fun r => (r.nb 1, r.labels.get? (1, 2))) = .ok ([0, 1, 2], some 5) := by decide
+
+
+/-! ## edge-list constructors -/
+
+/-- **directed constructor**: never throws; the result has `1 + largest index` vertices (none for
+an empty container) and is the state obtained by adding the edges one at a time to an empty
+graph of that size — hence (C01) it denotes exactly those edges, first label winning. -/
+theorem C09_dOfEdgeList (lb : Bool) (es : List (Nat × Nat × L)) :
+    ofEdgeList lb (fun h i j l f => h.dAddEdge i j l f) es = .ok ((G.new lb (vcount es) : G L).addAll es) ∧
+    ((G.new lb (vcount es) : G L).addAll es).size = vcount es ∧
+    Inv ((G.new lb (vcount es) : G L).addAll es) := by
+  refine ⟨ofEdgeList_eq lb _ addOK_dAddEdge es, ?_, inv_addAll _ (inv_new _ _) _⟩
+  rw [addAll_size]; rfl
+
+/-- the history "add the container's edges one at a time" -/
+def addOps (es : List (Nat × Nat × L)) : List (SOp L) := es.map (fun e => .addEdge e.1 e.2.1 e.2.2)
+
+theorem uRun_addOps (h : G L) (es : List (Nat × Nat × L)) :
+    uRun h (addOps es) = addOnly (fun h i j l f => h.uAddEdge i j l f) h es := by
+  induction es generalizing h with
+  | nil => rfl
+  | cons e es ih =>
+    simp only [addOps, List.map_cons, uRun, List.foldl_cons, addOnly] at ih ⊢
+    exact ih _
+
+/-- **undirected constructor**: never throws; the result is the state reached from an empty graph
+with `1 + largest index` vertices by the history `addEdge e₁; addEdge e₂; …`, so everything C02
+proves about histories applies to it. -/
+theorem C09_uOfEdgeList (lb : Bool) (es : List (Nat × Nat × L)) :
+    ofEdgeList lb (fun h i j l f => h.uAddEdge i j l f) es = .ok (uRun (G.new lb (vcount es) : G L) (addOps es)) ∧
+    UInv (uRun (G.new lb (vcount es) : G L) (addOps es)) := by
+  refine ⟨?_, C02_inv_reachable lb _ _⟩
+  rw [uRun_addOps]
+  exact ofEdgeList_eq lb _ addOK_uAddEdge es
+
+example : vcount ([] : List (Nat × Nat × Nat)) = 0 ∧ vcount [(2, 5, 7), (1, 1, (0 : Nat))] = 6 := by decide
+
+
+/-! ## undirected ↔ directed -/
+
+theorem firstLabel_some {es : List (LEdge L)} {x y : Nat} {l : L} (h : AG.firstLabel es x y = some l) :
+    (x, y, l) ∈ es := by
+  simp only [AG.firstLabel, Option.map_eq_some_iff] at h
+  obtain ⟨⟨a, b, c⟩, hf, rfl⟩ := h
+  have hm := List.mem_of_find?_eq_some hf
+  have hp := List.find?_some hf
+  simp only [Bool.and_eq_true, beq_iff_eq] at hp
+  obtain ⟨rfl, rfl⟩ := hp
+  exact hm
+
+theorem firstLabel_none {es : List (LEdge L)} {x y : Nat} (h : AG.firstLabel es x y = none) (l : L) :
+    (x, y, l) ∉ es := by
+  simp only [AG.firstLabel, Option.map_eq_none_iff, List.find?_eq_none] at h
+  intro hm
+  have := h _ hm
+  simp at this
+
+theorem firstLabelU_some {es : List (LEdge L)} {x y : Nat} {l : L} (h : AG.firstLabelU es x y = some l) :
+    ∃ i j, (i, j, l) ∈ es ∧ AG.samePair x y i j := by
+  simp only [AG.firstLabelU, Option.map_eq_some_iff] at h
+  obtain ⟨⟨a, b, c⟩, hf, rfl⟩ := h
+  have hm := List.mem_of_find?_eq_some hf
+  have hp := List.find?_some hf
+  exact ⟨a, b, hm, by simpa using hp⟩
+
+theorem firstLabelU_none {es : List (LEdge L)} {x y : Nat} (h : AG.firstLabelU es x y = none) (i j : Nat) (l : L)
+    (hs : AG.samePair x y i j) : (i, j, l) ∉ es := by
+  simp only [AG.firstLabelU, Option.map_eq_none_iff, List.find?_eq_none] at h
+  intro hm
+  have := h _ hm
+  simp at this
+  exact this hs
+
+theorem absD_new_lab (lb : Bool) (n x y : Nat) : (absD (G.new lb n : G L)).lab x y = none := by
+  have : (G.new lb n : G L).hasEdgeRaw x y = false := by
+    simp only [hasEdgeRaw]; rw [nb_new]; rfl
+  simp [absD, this]
+
+/-- **`getDirectedGraph()`**: never throws; the result contains both orientations of every
+undirected edge (one entry for a self-loop), each carrying that edge's label: its denoted
+labelling *is* the (symmetric) labelling of the undirected graph. -/
+theorem C09_getDirectedGraph (g : G L) (hg : UInv g) :
+    ∃ r, g.uGetDirectedGraph = .ok r ∧ Inv r ∧ r.labelled = g.labelled ∧
+      absD r = ⟨g.size, (absU g).lab⟩ := by
+  refine ⟨_, uGetDirectedGraph_ok g hg, inv_addAll _ (inv_new _ _) _, by rw [addAll_labelled]; rfl, ?_⟩
+  rw [absD_addAll _ (inv_new _ _)]
+  · apply AG.ext'
+    · rw [AG.addAll_n]; rfl
+    · intro x y
+      rw [AG.addAll_lab, absD_new_lab]
+      simp only
+      have hnorm : ∀ l, normLabel (G.new g.labelled g.size : G L).labelled (g.labD l) = g.labD l := by
+        intro l
+        simp only [normLabel, labD_eq]
+        show (if g.labelled = true then _ else _) = _
+        by_cases hl : g.labelled = true <;> simp [hl]
+      cases hf : AG.firstLabel (g.dirEdges.map (fun e => (e.1, e.2.1, normLabel (G.new g.labelled g.size : G L).labelled e.2.2))) x y with
+      | some l =>
+        have hm := firstLabel_some hf
+        obtain ⟨⟨a, b, c⟩, hmem, heq⟩ := List.mem_map.1 hm
+        simp only [Prod.mk.injEq] at heq
+        obtain ⟨rfl, rfl, rfl⟩ := heq
+        obtain ⟨he, rfl⟩ := (mem_dirEdges g hg a b c).1 hmem
+        simp [absU, he, hnorm]
+      | none =>
+        by_cases he : g.hasEdgeRaw x y = true
+        · exfalso
+          have hmem := (mem_dirEdges g hg x y (g.labD (ordered x y))).2 ⟨he, rfl⟩
+          refine firstLabel_none hf (g.labD (ordered x y)) (List.mem_map.2 ⟨_, hmem, ?_⟩)
+          simp [hnorm]
+        · simp [absU, he]
+  · intro e he
+    obtain ⟨x, y, l⟩ := e
+    have h1 := ((mem_dirEdges g hg x y l).1 he).1
+    have hm : y ∈ g.nb x := (mem_nb_iff g x y).2 h1
+    exact ⟨hg.base.bound y x ((hg.sym x y).1 hm), hg.base.bound x y hm⟩
+
+/-- **`Undirected(directed)`**: never throws; it connects exactly the pairs joined in either
+direction, each labelled as one of the directed edges between them. -/
+theorem C09_uOfDirected (d : G L) (hd : Inv d) :
+    ∃ r, d.uOfDirected = .ok r ∧ UInv r ∧ r.labelled = d.labelled ∧ r.size = d.size ∧
+      ∀ x y, (((absU r).lab x y).isSome = (((absD d).lab x y).isSome || ((absD d).lab y x).isSome)) ∧
+        ∀ l, (absU r).lab x y = some l → (absD d).lab x y = some l ∨ (absD d).lab y x = some l := by
+  have hvalid : AG.ValidFrom (L := L) d.size (d.lblEdges.map (fun e => SOp.addEdge e.1 e.2.1 e.2.2)) := by
+    apply validFrom_addOps
+    intro e he
+    simp only [lblEdges, List.mem_map] at he
+    obtain ⟨⟨a, b⟩, hab, rfl⟩ := he
+    exact hd.hasEdgeRaw_lt ((mem_edgeSeq_iff d hd (a, b)).1 hab)
+  have hsz : (uRun (G.new d.labelled d.size : G L) (d.lblEdges.map (fun e => SOp.addEdge e.1 e.2.1 e.2.2))).size = d.size := by
+    have := congrArg AG.n (C02_refines (L := L) d.labelled d.size _ hvalid)
+    simp only [absU] at this
+    rw [this, AG.uDenote_addOps, AG.uAddAll_n]; rfl
+  refine ⟨_, uOfDirected_ok d hd, C02_inv_reachable _ _ _, ?_, hsz, ?_⟩
+  · rw [uRun_labelled _ (uinv_new _ _)]; rfl
+  · intro x y
+    rw [C02_refines (L := L) d.labelled d.size _ hvalid, AG.uDenote_addOps,
+      AG.uAddAll_lab _ (by intro a b; rfl)]
+    simp only [AG.empty]
+    have hnorm : ∀ e : Edge, (if d.labelled = true then d.labD e else default) = d.labD e := by
+      intro e; simp only [labD_eq]; by_cases hl : d.labelled = true <;> simp [hl]
+    have hmemL : ∀ i j l, (i, j, l) ∈ d.lblEdges.map (fun e => (e.1, e.2.1, if d.labelled = true then e.2.2 else default))
+        ↔ d.hasEdgeRaw i j = true ∧ l = d.labD (i, j) := by
+      intro i j l
+      simp only [lblEdges, List.map_map, List.mem_map, Function.comp, Prod.mk.injEq]
+      constructor
+      · rintro ⟨⟨a, b⟩, hab, rfl, rfl, rfl⟩
+        exact ⟨(mem_edgeSeq_iff d hd (a, b)).1 hab, (hnorm _).symm ▸ rfl⟩
+      · rintro ⟨he, rfl⟩
+        exact ⟨(i, j), (mem_edgeSeq_iff d hd (i, j)).2 he, rfl, rfl, hnorm _⟩
+    cases hf : AG.firstLabelU (d.lblEdges.map (fun e => (e.1, e.2.1, if d.labelled = true then e.2.2 else default))) x y with
+    | some l =>
+      obtain ⟨i, j, hm, hs⟩ := firstLabelU_some hf
+      obtain ⟨he, rfl⟩ := (hmemL i j l).1 hm
+      simp only [absD]
+      rcases hs with ⟨rfl, rfl⟩ | ⟨rfl, rfl⟩
+      · refine ⟨by simp [he], ?_⟩
+        intro l hl; left; simp only [Option.some.injEq] at hl; simp [he, hl]
+      · refine ⟨by simp [he], ?_⟩
+        intro l hl; right; simp only [Option.some.injEq] at hl; simp [he, hl]
+    | none =>
+      have h1 : d.hasEdgeRaw x y = false := by
+        cases he : d.hasEdgeRaw x y with
+        | false => rfl
+        | true =>
+          exact absurd ((hmemL x y _).2 ⟨he, rfl⟩) (firstLabelU_none hf x y _ (Or.inl ⟨rfl, rfl⟩))
+      have h2 : d.hasEdgeRaw y x = false := by
+        cases he : d.hasEdgeRaw y x with
+        | false => rfl
+        | true =>
+          exact absurd ((hmemL y x _).2 ⟨he, rfl⟩) (firstLabelU_none hf y x _ (Or.inr ⟨rfl, rfl⟩))
+      refine ⟨by simp [absD, h1, h2], ?_⟩
+      intro l hl; cases hl
+
+/-- **undirected → directed → undirected is the identity** (of the denoted graph) -/
+theorem C09_und_dir_und (g : G L) (hg : UInv g) :
+    ∃ r r2, g.uGetDirectedGraph = .ok r ∧ r.uOfDirected = .ok r2 ∧ absU r2 = absU g := by
+  obtain ⟨r, hr, hri, hrl, hra⟩ := C09_getDirectedGraph g hg
+  obtain ⟨r2, hr2, _, _, hsz, hlab⟩ := C09_uOfDirected r hri
+  refine ⟨r, r2, hr, hr2, ?_⟩
+  have hrs : r.size = g.size := congrArg AG.n hra
+  apply AG.ext'
+  · show r2.size = g.size; rw [hsz, hrs]
+  · intro x y
+    obtain ⟨h1, h2⟩ := hlab x y
+    have hxy : (absD r).lab x y = (absU g).lab x y := by rw [hra]
+    have hyx : (absD r).lab y x = (absU g).lab x y := by rw [hra]; exact C02_symmetric g hg y x
+    rw [hxy, hyx, Bool.or_self] at h1
+    cases hl : (absU r2).lab x y with
+    | some l =>
+      have := h2 l hl
+      rw [hxy, hyx] at this
+      rcases this with h | h <;> exact h.symm
+    | none =>
+      rw [hl] at h1
+      cases hg' : (absU g).lab x y with
+      | none => rfl
+      | some v => rw [hg'] at h1; cases h1
+
+example : (match (⟨true, 3, [[1], [0, 1, 2], [1]], 3, [((0, 1), 7), ((1, 1), 8), ((1, 2), 9)]⟩ : G Nat).uGetDirectedGraph with
+    | .ok r => some (r.adj, r.edgeNumber, r.labels) | _ => none)
+    = some ([[1], [0, 1, 2], [1]], 5, [((2, 1), 9), ((1, 2), 9), ((1, 1), 8), ((1, 0), 7), ((0, 1), 7)]) := by decide
 
 end BGV
